@@ -218,6 +218,11 @@ def numeral_states():
         for k in cnts:
             yield ((("el", el, k),), None, None, None, None, None)
             yield ((("gr", "()", (("el", el, ""), ("el", "O", "2")), k),), None, None, None, None, None)
+    # long decimal subscripts inside a multiplied group (mineral formulas): the multiplier applies to the exact count
+    for k1, k2 in (("0.9375", "0.0625"), ("2.8125", "0.6875"), ("0.0625", "1.4375")):  # dyadic, so every product is exact in floats
+        for gk in ("", "2", "1.5", "6"):
+            for br in BR:
+                yield ((("gr", br, (("el", "Mg", k1), ("el", "Fe", k2)), gk), ("el", "Si", ""), ("el", "O", "4")), None, None, None, None, None)
     for q in range(1, 31):
         for sign in "+-":
             chg = sign + (str(q) if q > 1 else "")
